@@ -324,3 +324,6 @@ class C19(Prop):
 
 
 PROP = C19()
+
+PROP.rule += (" Strata added while closing seeded changes (DESIGN section 10): "
+              'structured junk, blank junk lines, shuffled header sections, bracket-only units, streams named by a descriptor, line numbers in messages, bound on added items, reads into a used LASFile.')
